@@ -23,7 +23,7 @@ from harness.common import Sym
 
 FRAGS = ['>>> ', '... ', '>>>', '...', 'x = 1', 'print(x)', 'f(', ')', '[', ']', '{', '}', "'", '"', "'''", '"""', '\\', '\\\n',
          '# xdoctest: +SKIP', '# xdoctest: +REQUIRES(', '# xdoctest: +REQUIRES(a,(b)', '# doctest: +ELLIPSIS',
-         '# XDOCTEST: +REQUIRES(', '# XDoc: +REQUIRES(a,(b)', '# DocTest: +SKIP)', '# XDOC: +SKIP', 'def f():', 'class A:',
+         '# XDOCTEST: +REQUIRES(', '# XDoc: +REQUIRES(a,(b)', '# DocTest: +SKIP)', '# XDOC: +SKIP', '# DISABLE_DOCTEST', '# SCRIPT', 'def f():', 'class A:',
          'return', 'if x:', 'else:', 'lambda', 'yield', 'import os', '    ', '\t', '\n', '\n', '\n', '\x0c', '\x0b', '\r', '\x00',
          'Example:', 'Args:', 'Returns:', 'é', '　', '1', 'x', ';', ':', ',', '@', '=', '==', '(' * 30, '[(' * 20, 'text', 'Traceback (most recent call last):',
          '<BLANKLINE>', '  # comment', '$', '?', '`', '!x', 'async def g():', 'await z', 'with a as b:', 'try:', 'except:', 'global x', 'nonlocal y']
@@ -67,6 +67,9 @@ def gen_strings(ctx):
                 body.append('>>> y = (1,')
                 if rng.random() < 0.5:
                     body.append('...      2)')
+            if rng.random() < 0.2:
+                # the block starts with one of the legacy remarks that force-disable a doctest: it is still parsed when collected
+                body.insert(0, '>>> ' + rng.choice(['# DISABLE_DOCTEST', '# SCRIPT', '#UNSTABLE', '# FAILING', '# slow_doctest', '# xdoctest: +SKIP']))
             lines += ['    ' + l for l in body]
             if rng.random() < 0.7:
                 lines.append('')
